@@ -63,6 +63,8 @@ type realm struct {
 	// Session meta-procedure registration ID -> handler map.
 	metaProcMap map[wamp.ID]func(*wamp.Invocation) wamp.Message
 	metaDone    chan struct{}
+	// metaSessDone is closed when the meta session's message handler exits.
+	metaSessDone chan struct{}
 
 	closed    bool
 	closeLock sync.Mutex
@@ -109,21 +111,22 @@ func newRealm(config *RealmConfig, broker *broker, dealer *dealer, logger stdlog
 	}
 
 	r := &realm{
-		broker:      broker,
-		dealer:      dealer,
-		authorizer:  config.Authorizer,
-		clients:     map[wamp.ID]*wamp.Session{},
-		testaments:  map[wamp.ID]testamentBucket{},
-		actionChan:  make(chan func()),
-		stopped:     make(chan struct{}),
-		metaIDGen:   new(wamp.IDGen),
-		metaDone:    make(chan struct{}),
-		metaProcMap: make(map[wamp.ID]func(*wamp.Invocation) wamp.Message, 9),
-		log:         logger,
-		debug:       debug,
-		localAuth:   config.RequireLocalAuth,
-		localAuthz:  config.RequireLocalAuthz,
-		metaStrict:  config.MetaStrict,
+		broker:       broker,
+		dealer:       dealer,
+		authorizer:   config.Authorizer,
+		clients:      map[wamp.ID]*wamp.Session{},
+		testaments:   map[wamp.ID]testamentBucket{},
+		actionChan:   make(chan func()),
+		stopped:      make(chan struct{}),
+		metaIDGen:    new(wamp.IDGen),
+		metaDone:     make(chan struct{}),
+		metaSessDone: make(chan struct{}),
+		metaProcMap:  make(map[wamp.ID]func(*wamp.Invocation) wamp.Message, 9),
+		log:          logger,
+		debug:        debug,
+		localAuth:    config.RequireLocalAuth,
+		localAuthz:   config.RequireLocalAuthz,
+		metaStrict:   config.MetaStrict,
 
 		enableMetaKill:   config.EnableMetaKill,
 		enableMetaModify: config.EnableMetaModify,
@@ -293,6 +296,7 @@ func (r *realm) createMetaSession() {
 
 	// Run the handler for messages from the meta session.
 	go func() {
+		defer close(r.metaSessDone)
 		_, _, err := r.handleInboundMessages(r.metaSess)
 		if err != nil {
 			r.log.Println("meta session handler should never return error, got:", err)
@@ -748,17 +752,41 @@ func (r *realm) registerMetaProcedure(procedure wamp.URI, f func(*wamp.Invocatio
 
 func (r *realm) metaProcedureHandler() {
 	defer close(r.metaDone)
+	// The meta session's handler is the only reader of what is sent here and
+	// the only sender of the GOODBYE that ends this handler. Once it has
+	// exited, a send would block forever and the GOODBYE may have been dropped
+	// (this handler's queue was full), so its exit ends this handler as well.
+	send := func(msg wamp.Message) bool {
+		select {
+		case r.metaPeer.Send() <- msg:
+			return true
+		case <-r.metaSessDone:
+			return false
+		}
+	}
 	var rsp wamp.Message
-	for msg := range r.metaPeer.Recv() {
+	for {
+		var msg wamp.Message
+		var open bool
+		select {
+		case msg, open = <-r.metaPeer.Recv():
+			if !open {
+				return
+			}
+		case <-r.metaSessDone:
+			return
+		}
 		switch msg := msg.(type) {
 		case *wamp.Invocation:
 			metaProcHandler, ok := r.metaProcMap[msg.Registration]
 			if !ok {
-				r.metaPeer.Send() <- &wamp.Error{
+				if !send(&wamp.Error{
 					Type:    msg.MessageType(),
 					Request: msg.Request,
 					Details: wamp.Dict{},
 					Error:   wamp.ErrNoSuchProcedure,
+				}) {
+					return
 				}
 				continue
 			}
@@ -771,7 +799,9 @@ func (r *realm) metaProcedureHandler() {
 		default:
 			r.log.Println("Meta procedure received unexpected", msg.MessageType())
 		}
-		r.metaPeer.Send() <- rsp
+		if !send(rsp) {
+			return
+		}
 	}
 }
 
